@@ -2,6 +2,8 @@ package props
 
 import (
 	"fmt"
+	"os"
+	"path/filepath"
 	"strings"
 	"testing"
 
@@ -83,6 +85,77 @@ var c12Live = hx.Define("c12.shadowed-live-value", func(c *c12LiveCase, s *hx.Su
 	return nil
 })
 
+// ---- "visible ... in included templates": a name bound by assign or capture is read inside an included file ----
+
+type c12IncCase struct {
+	Name  string `json:"name"`  // the variable
+	Bind  int    `json:"bind"`  // 0 assign, 1 capture
+	Where int    `json:"where"` // 0 include at top level, 1 inside a loop, 2 after a loop that shadowed the name, 3 inside if
+	Cache bool   `json:"cache"` // the included file exists only as cached source
+}
+
+var c12IncSeq int
+
+var c12Inc = hx.Define("c12.visible-in-include", func(c *c12IncCase, s *hx.Sub) *hx.Violation {
+	base := os.Getenv("VERIF_OUT")
+	if base == "" {
+		base = os.TempDir()
+	}
+	c12IncSeq++
+	dir, err := os.MkdirTemp(base, fmt.Sprintf("c12i-%d-", c12IncSeq))
+	if err != nil {
+		return hx.V("harness-error", "mkdir: %v", err)
+	}
+	defer os.RemoveAll(dir)
+	eng := newEngine(nil)
+	inner := "[{{ " + c.Name + " }}]"
+	if c.Cache {
+		if _, perr := eng.ParseTemplateAndCache([]byte(inner), filepath.Join(dir, "inc.html"), 1); perr != nil {
+			return hx.V("c12:include-parse", "%q registered as cached source: %v", inner, perr)
+		}
+	} else if err := os.WriteFile(filepath.Join(dir, "inc.html"), []byte(inner), 0o644); err != nil {
+		return hx.V("harness-error", "write: %v", err)
+	}
+	bind := "{% assign " + c.Name + " = \"mine\" %}"
+	if c.Bind == 1 {
+		bind = "{% capture " + c.Name + " %}mi{{ \"ne\" }}{% endcapture %}"
+	}
+	inc := "{% include \"inc.html\" %}"
+	var src, want string
+	switch c.Where {
+	case 0:
+		src, want = bind+inc, "[mine]"
+	case 1:
+		if c.Name == "forloop" {
+			// inside a loop the name forloop means the loop's record, in the included file as in the loop body
+			s.Exclude()
+			return nil
+		}
+		src, want = bind+"{% for zz in (1..2) %}"+inc+"{% endfor %}", "[mine][mine]"
+	case 2:
+		src, want = bind+"{% for "+c.Name+" in (1..2) %}{% endfor %}"+inc, "[mine]"
+		if c.Name == "forloop" {
+			// a loop variable called forloop: the statement does not say which of the two the body sees; after the loop
+			// both are restored, so the expectation is the same
+			src = bind + "{% for zz in (1..2) %}{% endfor %}" + inc
+		}
+	default:
+		src, want = "{% if true %}"+bind+"{% endif %}{% if true %}"+inc+"{% endif %}", "[mine]"
+	}
+	o := hx.RenderAt(eng, src, filepath.Join(dir, "top.html"), 1, map[string]any{})
+	if o.Panic != nil {
+		return hx.V("panic@"+o.Panic.Site, "%s: %v", src, o.Panic)
+	}
+	if !o.OK() || o.Out != want {
+		return hx.V("c12:not-visible-in-include", "%s with inc.html = %q renders %v; expected %q: a variable set by assign or capture is visible in included templates", src, inner, o, want)
+	}
+	s.NT()
+	if s.WantSample() {
+		s.Sample(map[string]any{"template": src, "inc.html": inner, "output": o.Out})
+	}
+	return nil
+})
+
 type c12CapCase struct {
 	P  *hx.Program `json:"p"`
 	Hy []bool      `json:"hy,omitempty"`
@@ -143,6 +216,21 @@ func TestC12(t *testing.T) {
 				k++
 				if env.Mine(k) {
 					live.Run(&c12LiveCase{Tag: tag, N: n, Body: b})
+				}
+			}
+		}
+	}
+
+	incl := c12Inc.On(col, "exhaustive over a list: a name (plain, hyphenated, ending in ?, and the names the tags themselves use: forloop, tablerowloop, include, page) is bound by assign or by capture and read inside an included file (on disk / cached source only) that is included at top level, inside a loop, after a loop that shadowed the name, inside an if; oracle: the fixed expected output. Distinct by construction", true)
+	k = 0
+	for _, name := range []string{"v1", "my-var", "ok?", "forloop", "tablerowloop", "include", "page", "site"} {
+		for bindKind := 0; bindKind <= 1; bindKind++ {
+			for where := 0; where <= 3; where++ {
+				for _, cache := range []bool{false, true} {
+					k++
+					if env.Mine(k) {
+						incl.Run(&c12IncCase{Name: name, Bind: bindKind, Where: where, Cache: cache})
+					}
 				}
 			}
 		}
